@@ -786,6 +786,9 @@ func c06Eval(c *Ctx, kind string, raw []byte) {
 			var serErr bool
 			out, txt := guard(func() {
 				m := w.ov.Merged(c04Opts(op.Opt)...)
+				if !c.Direct("merged-view-is-a-finite-tree", dhAcyclic(m), map[string]any{"op": op}) {
+					panic("harness: cyclic document, not observed any further")
+				}
 				mw, mmap = nodeWire(m), plainWire(m.AsMap())
 				acc := dom.Builder().Container()
 				ls := w.ov.Layers()
@@ -1255,6 +1258,9 @@ func c06Sweep(c *Ctx, w *c06World, op c06Op, nth int) bool {
 			opt = "append"
 		}
 		m := w.ov.Merged(c04Opts(opt)...)
+		if !c.Direct("merged-view-is-a-finite-tree", dhAcyclic(m), map[string]any{"after": op}) {
+			panic("harness: cyclic document, not observed any further")
+		}
 		ok = c.Direct("merged-AsMap-eq-reference-fold-of-layer-AsMaps(after every write)", canon(plainWire(m.AsMap())) == canon(ref) && canon(nodeWire(m)) == canon(ref),
 			map[string]any{"after": op, "opt": opt, "merged": nodeWire(m), "expected": ref}) && ok
 	})
